@@ -1,4 +1,5 @@
 """Helpers to summarise provenance terms: origins, transform chains, control origins."""
+import os
 from . import prov as P
 
 
@@ -36,7 +37,7 @@ def _paths(term, xf=()):
             yield o, x + (term[1],) + xf
         return
     if tag == 'join':
-        for t in sorted(term[1], key=repr):
+        for t in (term[1] if os.environ.get('PYTHONHASHSEED') == '0' else sorted(term[1], key=repr)):
             yield from paths(t, xf)
         return
     if tag == 'if':
